@@ -260,6 +260,15 @@ def to_meshio(mesh,
     mtype = TYPE_MESH_MAPPING[type(mesh)]
     cells = {mtype: t.T}
 
+    # meshio's writers store padded arrays into the containers they are
+    # given: hand them copies, never the caller's dictionary or lists; one
+    # array per cell (there is a single cell block) is wrapped in a list
+    if point_data is not None:
+        point_data = dict(point_data)
+    if cell_data is not None:
+        cell_data = {k: (list(v) if isinstance(v, (list, tuple)) else [v])
+                     for k, v in cell_data.items()}
+
     if encode_cell_data:
         cell_data = {**({} if cell_data is None else cell_data),
                      **mesh._encode_cell_data()}
